@@ -10,11 +10,13 @@ import (
 	"time"
 
 	"github.com/codenotary/immudb/embedded/logger"
+	"github.com/codenotary/immudb/pkg/api/protomodel"
 	"github.com/codenotary/immudb/pkg/api/schema"
 	immuclient "github.com/codenotary/immudb/pkg/client"
 	"github.com/codenotary/immudb/pkg/client/state"
 	"github.com/codenotary/immudb/pkg/server"
 	"github.com/codenotary/immudb/pkg/server/sessions"
+	"github.com/codenotary/immudb/pkg/verification"
 	"google.golang.org/grpc"
 	"google.golang.org/grpc/credentials/insecure"
 	"google.golang.org/grpc/metadata"
@@ -22,6 +24,7 @@ import (
 	"google.golang.org/protobuf/proto"
 	"google.golang.org/protobuf/reflect/protoreflect"
 	"google.golang.org/protobuf/types/known/emptypb"
+	"google.golang.org/protobuf/types/known/structpb"
 
 	"verifsim/simcore"
 )
@@ -48,7 +51,7 @@ type c01bTamper struct {
 func (t *c01bTamper) intercept(ctx context.Context, method string, req, reply interface{}, cc *grpc.ClientConn, invoker grpc.UnaryInvoker, opts ...grpc.CallOption) error {
 	err := invoker(ctx, method, req, reply, cc, opts...)
 	m, ok := reply.(proto.Message)
-	if err != nil || !ok || !strings.Contains(method, "Verifiable") {
+	if err != nil || !ok || !(strings.Contains(method, "Verifiable") || strings.HasSuffix(method, "/ProofDocument")) {
 		return err
 	}
 	honest := proto.Clone(m)
@@ -488,7 +491,82 @@ func c01bBody(r *simcore.Run) {
 		}
 		trusted(c, who, what)
 	}
-	r.Sig("c01b", nOps, tampered > 0, rejected > 0, harmless > 0)
+	// document proofs: pkg/verification.VerifyDocument against a state kept here
+	docProofs := 0
+	if r.Pct(60) {
+		tconn, err := grpc.NewClient("passthrough:///bufnet", dialer, grpc.WithTransportCredentials(insecure.NewCredentials()), grpc.WithChainUnaryInterceptor(tam.intercept))
+		r.Must(err, "dial (documents)")
+		defer tconn.Close()
+		dhonest := protomodel.NewDocumentServiceClient(raw)
+		dtamper := protomodel.NewDocumentServiceClient(tconn)
+		_, err = dhonest.CreateCollection(hctx, &protomodel.CreateCollectionRequest{Name: "c1", Fields: []*protomodel.Field{{Name: "n", Type: protomodel.FieldType_INTEGER}}})
+		r.Must(err, "CreateCollection")
+		nDocs := 2 + r.Intn(3)
+		for i := 0; i < nDocs; i++ {
+			d, _ := structpb.NewStruct(map[string]interface{}{"n": i, "tag": fmt.Sprintf("doc-%d", i)})
+			_, err := dhonest.InsertDocuments(hctx, &protomodel.InsertDocumentsRequest{CollectionName: "c1", Documents: []*structpb.Struct{d}})
+			r.Must(err, "InsertDocuments")
+			if r.Bool() {
+				// unrelated transactions between the documents
+				rawc.Set(hctx, &schema.SetRequest{KVs: []*schema.KeyValue{{Key: []byte("filler"), Value: []byte{byte(i)}}}})
+			}
+		}
+		sr, err := dhonest.SearchDocuments(hctx, &protomodel.SearchDocumentsRequest{Query: &protomodel.Query{CollectionName: "c1"}, Page: 1, PageSize: 20})
+		r.Must(err, "SearchDocuments")
+		if len(sr.Revisions) != nDocs {
+			r.Violation("honest-read", "", "SearchDocuments returned %d documents, %d were inserted", len(sr.Revisions), nDocs)
+		}
+		var known *schema.ImmutableState
+		for round := 0; round < 3+r.Intn(5); round++ {
+			rev := sr.Revisions[r.Intn(len(sr.Revisions))]
+			id := rev.Document.Fields["_id"].GetStringValue()
+			since := uint64(0)
+			if known != nil {
+				since = known.TxId
+			}
+			tamper := known != nil && r.Pct(35)
+			if tamper {
+				tam.armed, tam.what = true, ""
+			}
+			proof, perr := dtamper.ProofDocument(hctx, &protomodel.ProofDocumentRequest{CollectionName: "c1", DocumentId: id, ProofSinceTransactionId: since})
+			wasTampered := tamper && tam.what != ""
+			tam.armed = false
+			what := fmt.Sprintf("ProofDocument(%s, since tx %d)", rev.Document.Fields["tag"].GetStringValue(), since)
+			if perr != nil {
+				r.Violation("honest-response-rejected", "document-proof", "%s failed on the honest server: %v", what, perr)
+			}
+			var ns *schema.ImmutableState
+			var verr error
+			pv, stack := r.Catch(func() { ns, verr = verification.VerifyDocument(ctx, proof, rev.Document, known, nil) })
+			if pv != nil {
+				r.Violation("panic", "", "VerifyDocument panicked (%s, tampered=%v %s): %v\n%s", what, wasTampered, tam.what, pv, stack)
+			}
+			r.Logf("%s tampered=%v -> %v", what, wasTampered, verr)
+			docProofs++
+			if !wasTampered && verr != nil {
+				r.Violation("honest-response-rejected", "document-proof", "%s: the honest proof does not verify against the known state (tx %d): %v", what, since, verr)
+			}
+			if wasTampered {
+				tampered++
+				if verr != nil {
+					rejected++
+					continue
+				}
+				harmless++
+			}
+			// accepted: the new state must be a state of the honest server and extend the known one
+			h := honestAlh(ns.TxId)
+			if !bytes.Equal(ns.TxHash, h[:]) || (known != nil && ns.TxId < known.TxId) {
+				alt := ""
+				if wasTampered {
+					alt = " although the response was altered (" + tam.what + ")"
+				}
+				r.Violation("forged-state-trusted", "document-proof", "%s verified and yields state (tx %d, %x); the honest server's accumulated hash of tx %d is %x, the known state was tx %d%s", what, ns.TxId, ns.TxHash, ns.TxId, h, since, alt)
+			}
+			known = ns
+		}
+	}
+	r.Sig("c01b", nOps, tampered > 0, rejected > 0, harmless > 0, docProofs > 0)
 	r.Sample(map[string]interface{}{"layer": "client/server", "operations": nOps, "responses_altered": tampered, "altered_rejected": rejected, "altered_but_result_identical": harmless})
 	if tampered > 0 {
 		r.Fault("response-altered")
